@@ -3,7 +3,7 @@
 Histories of queries over a *pool of similar contractions* (same incidence with permuted
 indices inside terms / output, re-ordered size dict, one size changed, labels moved between
 edges with the size dict kept, tensors swapped, an extra scalar tensor) through
-ReusableHyperOptimizer / ReusableRandomGreedyOptimizer, hash_method a|b, in memory or on disk
+ReusableHyperOptimizer / ReusableRandomGreedyOptimizer, hash_method a|b|<not passed: the constructor's default>, in memory or on disk
 (directory_split on/off/auto), overwrite in {False, True, 'improved'}, cache_only, with
 process restarts (fork; a sample in completely fresh interpreters) in between.  The
 sub-optimizer is scripted (subclass overriding only `_get_suboptimizer`) or real.
@@ -164,8 +164,8 @@ def _policy(rng):
 def gen_history(rng, tier):
     pool = gen_pool(rng)
     cls = rng.choice(["hyper", "hyper", "rg", "rg", "real-hyper", "real-rg"])
-    cfg = {"cls": cls, "hash_method": rng.choice(["a", "a", "b"]),
-           "disk": rng.random() < 0.75, "split": rng.choice([True, False, "auto"])}
+    cfg = {"cls": cls, "hash_method": rng.choice(["a", "a", "b", "default", "default"]),
+           "disk": rng.random() < 0.75, "split": rng.choice([True, False, "auto", "default"])}
     cfg.update(_policy(rng))
     events = []
     nev = rng.randint(6, 14)
@@ -458,7 +458,9 @@ def model_compare(ctx, drv, hist, obs):
         prev_stored[o["key"]] = st
         mev.append({"q": ev["q"], "con": con, "tie_replace": tie})
     nets = [n.json() for n in pool]
-    resp = drv.call("c14.run", nets=nets, method=cfg0["hash_method"], disk=bool(cfg0["disk"]),
+    # a default-constructed optimizer is documented (and modelled) to use method 'a'
+    resp = drv.call("c14.run", nets=nets, method="a" if cfg0["hash_method"] == "default" else cfg0["hash_method"],
+                    disk=bool(cfg0["disk"]),
                     cfg=jpol(cfg0), events=mev)
     if "error" in resp:
         ctx.corr_broken("driver: " + resp["error"], hist)
